@@ -122,6 +122,35 @@ def run(t, budget=1.0):
         entry, mi, L = pc.draw_target(data)
         M = entry.model
         groups = preorder_groups(L)
+        if L.groups and not L.groups[0].groups and not L.groups[0].data and data.draw(st.integers(0, 5)) == 0:
+            # run-time size of a flat group from its header alone: numInGroup x blockLength up to the type maxima
+            from vlib.schemagen import prim_range
+            g0 = L.groups[0]
+            empty = {"fields": data.draw(values.level_values(L, max_entries=0))["fields"], "groups": {g.name: {"entries": []} for g in L.groups},
+                     "data": {d.name: b"" for d in L.data}}
+            img, size = M.encode_message(L, empty, background=0)
+            gpos = M.header.size + L.block_length
+            nm, bm = M.member(g0.dimension, "numInGroup"), M.member(g0.dimension, "blockLength")
+            ntop, btop = prim_range(nm.prim)[1], prim_range(bm.prim)[1]
+            pick = lambda top: data.draw(st.one_of(st.sampled_from(sorted({0, 1, top, top - 1, top // 2 + 1, min(top, 255), min(top, 50000), min(top, 65535), min(top, 65537), min(top, 2 ** 31), min(top, 2 ** 32 - 1)})), st.integers(0, top)))
+            nv, bv = pick(ntop), pick(btop)
+            expv = g0.dimension.size + nv * bv
+            if expv < 2 ** 63:
+                b = bytearray(img[:gpos + g0.dimension.size])
+                M.put_member(b, gpos, nm, nv)
+                M.put_member(b, gpos, bm, bv)
+                line = "gsize %d %s" % (mi, bytes(b).hex())
+                if nv * bv >= 2 ** 31:
+                    res.nontriv(common.text_hash(entry.dir, line))
+                res.cls("flat_group_header_only_size")
+                for cfg in entry.status["configs"]:
+                    resp = pc.call(entry, cfg, line)
+                    res.count()
+                    if resp != "OK gsize=%d n=%d" % (expv, nv):
+                        pc.fail("size-mismatch:flat-group-big-product", entry,
+                                {"cmd": line, "config": cfg, "expected": "OK gsize=%d n=%d" % (expv, nv), "actual": resp},
+                                "[%s] size_bytes of flat group %s with numInGroup=%d blockLength=%d: expected %d, got %s" % (cfg, g0.name, nv, bv, expv, resp[:100]))
+            return
         if groups and data.draw(st.integers(0, 4)) == 0:
             # trait formula with large counts (no image): every numInGroup value up to the type maximum
             from vlib.schemagen import prim_range
